@@ -28,7 +28,7 @@ Checks(ev) ==
         <<"identity-not-at-infinity", Qid # <<>>>>,
         <<"negatives-differ", Qid = <<>> \/ \A i \in 1..Len(ev.out.neg_in) : (i \in {1, 2} /\ Aff1(ev.out.id2) = Qid) \/ ev.out.neg_in[i] # ev.out.enc_in>>,
         <<"diag.sampler-protocol", rho = Norm(ev.t)>> >>
-Fails(ev) == FailsOf(Checks(ev))
+Fails(ev) == IF ev.op # "lq.run" THEN {"unknown-op"} ELSE FailsOf(Checks(ev))
 Init == l \in 1..NLines /\ st = "todo"
 Next == /\ st = "todo"
         /\ LET f == Fails(Tr[l]) IN
